@@ -317,6 +317,18 @@ def run(ck):
     rc, out, err = ck.run_bin(bins["c17"], input="\n".join(xreqs) + "\n")
     xgot = [x for x in out.split("\n") if x]
     xbad = 0
+    # the executable Lean model predicts trace AND outcomes of these graphs too (AsyncModuleExecutionRejected, errors travelling up the walk)
+    xareqs = ["arun deps=%s awaits=%s throws=%s roots=%s" % (";".join("%d:%s" % (m, ",".join(map(str, ds))) for m, ds in enumerate(deps)), ",".join(map(str, awaits)),
+                                                          "".join("1" if m in throwers else "0" for m in range(len(deps))), ",".join(ro[1:] for ro in roots))
+              for deps, awaits, _, roots, throwers in xgraphs]
+    xmodel = ck.driver("drv-c17", xareqs)
+    xdrift = 0
+    for (deps, awaits, mods, roots, throwers), g, am in zip(xgraphs, xgot + ["missing"] * len(xgraphs), xmodel):
+        if g != am:
+            xdrift += 1
+            ck.model_drift({"input": json.dumps(mods), "roots": roots, "model": am, "implementation": g})
+    ck.oblige("correspondence:async module evaluation with throwing modules: trace and outcomes == C17.Async model on %d generated graphs" % len(xgraphs), "correspondence",
+              xdrift == 0, "%d graphs differ" % xdrift if xdrift else None)
     for (deps, awaits, mods, roots, throwers), g in zip(xgraphs, xgot + ["missing"] * len(xgraphs)):
         mm = re.fullmatch(r"trace=(\S*) outcomes=(\S*)", g)
         if not mm:
